@@ -15,6 +15,16 @@ use std::collections::{BTreeMap, BTreeSet};
 pub enum Focus {
     Sound,
     Complete,
+    Both,
+}
+
+impl Focus {
+    fn sound(self) -> bool {
+        matches!(self, Focus::Sound | Focus::Both)
+    }
+    fn complete(self) -> bool {
+        matches!(self, Focus::Complete | Focus::Both)
+    }
 }
 
 /// reduced set of relative namings: tau maps fv(t) into names(s) ∪ fresh names (fresh ones used in order).
@@ -50,7 +60,56 @@ pub struct CongCase {
     pub pool: u32,
 }
 
+/// C10 "restricted to non-redundant slots": a multi-slot leaf, a union that makes some of its slots redundant,
+/// and unions with permuted copies (including permutations that move a redundant slot), in random order.
+fn gen_symred(rng: &mut Rng) -> History {
+    let n = rng.range(3, 4);
+    let op: &'static str = if n == 3 { "h" } else { "q" };
+    let base: Vec<Name> = (0..n as Name).collect();
+    let leaf = Tm::leaf(op, base.clone());
+    let mut terms = vec![leaf.clone()];
+    let mut ops = vec![HOp::Add(0)];
+    let mut unions = vec![];
+    // redundancy: equate with a leaf over a subset of the names
+    let keep = rng.range(0, n - 1);
+    let mut names = base.clone();
+    rng.shuffle(&mut names);
+    names.truncate(keep);
+    let small = match keep {
+        0 => Tm::leaf("c", vec![]),
+        1 => Tm::leaf("g", names.clone()),
+        2 => Tm::leaf("f", names.clone()),
+        _ => Tm::leaf("h", names.clone()),
+    };
+    terms.push(small);
+    unions.push((0, 1));
+    for _ in 0..rng.range(1, 3) {
+        let mut img = base.clone();
+        match rng.below(3) {
+            0 => {
+                let i = rng.below(n);
+                let j = (i + 1 + rng.below(n - 1)) % n;
+                img.swap(i, j);
+            }
+            1 => img.rotate_left(1),
+            _ => rng.shuffle(&mut img),
+        }
+        terms.push(Tm::leaf(op, img));
+        unions.push((0, terms.len() - 1));
+    }
+    rng.shuffle(&mut unions);
+    for (a, b) in unions {
+        ops.push(HOp::Union(a, b));
+    }
+    History { terms, ops, ns: n, families: vec!["permuted-copy", "redundancy"] }
+}
+
 pub fn gen_case(rng: &mut Rng, profile: &str) -> CongCase {
+    if profile == "symred" {
+        let hist = gen_symred(rng);
+        let pool = pool_for(hist.max_names().max(1), hist.ns);
+        return CongCase { hist, pool };
+    }
     let (ops, ns, max_names, max_terms, max_unions, depth): (&[&str], usize, usize, usize, usize, usize) = match profile {
         "m4" => (&["f", "g", "h", "k", "q", "c", "d", "u", "app", "lam"], 4, 4, 4, 4, 1),
         "binders" => (&["f", "g", "k", "var", "c", "u", "app", "lam", "sum", "let", "bb", "idx"], 3, 4, 5, 4, 2),
@@ -121,7 +180,7 @@ pub fn eval_history(h: &History, focus: Focus, profile: &str, full: bool) -> Cas
         });
         match r {
             Err(p) => {
-                if focus == Focus::Complete {
+                if focus.complete() {
                     out.fail(Fail::panic("panic-in-op", &p, &format!("step {step} ({})", h.text(lang)[step]), cj.clone()));
                 } else {
                     out.inconclusive = Some("operation panicked (reported by C02/C08)".into());
@@ -189,12 +248,12 @@ pub fn eval_history(h: &History, focus: Focus, profile: &str, full: bool) -> Cas
                     match guard(|| lookup_rec_expr(&to_rec::<LSym>(lang, &s), &eg)) {
                         Ok(Some(a)) => items.push((s, a, false)),
                         Ok(None) => {
-                            if focus == Focus::Complete {
+                            if focus.complete() {
                                 out.fail(Fail::new("subterm-not-represented", "lookup-none", format!("subterm {} of an inserted term cannot be looked up", s.text(lang, &pname)), cj.clone()));
                             }
                         }
                         Err(p) => {
-                            if focus == Focus::Complete {
+                            if focus.complete() {
                                 out.fail(Fail::panic("panic-in-lookup", &p, "lookup_rec_expr of a subterm", cj.clone()));
                             }
                             return out;
@@ -210,7 +269,7 @@ pub fn eval_history(h: &History, focus: Focus, profile: &str, full: bool) -> Cas
             let got = match guard(|| eg.find_applied_id(idt).slots()) {
                 Ok(g) => g,
                 Err(p) => {
-                    if focus == Focus::Complete {
+                    if focus.complete() {
                         out.fail(Fail::panic("panic-in-find", &p, "find_applied_id", cj.clone()));
                     }
                     return out;
@@ -223,10 +282,10 @@ pub fn eval_history(h: &History, focus: Focus, profile: &str, full: bool) -> Cas
                     out.fail(Fail::new("foreign-slot", "slots-not-subset-of-fv", format!("slots {:?} of {} are not among its free slots", got, t.text(lang, &pname)), cj.clone()));
                 }
                 Some(g) => {
-                    if focus == Focus::Sound && !g.is_superset(&sup) && redecide_support(h, step, t, pool + 2).map(|s2| !g.is_superset(&s2)).unwrap_or(true) {
+                    if focus.sound() && !g.is_superset(&sup) && redecide_support(h, step, t, pool + 2).map(|s2| !g.is_superset(&s2)).unwrap_or(true) {
                         out.fail(Fail::new("unsound-redundancy", "slot-dropped", format!("after step {step}: {} lost slot(s) {:?} although it depends on them (oracle support {:?}, e-graph {:?})", t.text(lang, &pname), sup.difference(&g).collect::<Vec<_>>(), sup, g), cj.clone()));
                     }
-                    if focus == Focus::Complete && !g.is_subset(&sup) {
+                    if focus.complete() && !g.is_subset(&sup) {
                         out.fail(Fail::new("missed-redundancy", "slot-kept", format!("after step {step}: {} keeps slot(s) {:?} although provably redundant (oracle support {:?}, e-graph {:?})", t.text(lang, &pname), g.difference(&sup).collect::<Vec<_>>(), sup, g), cj.clone()));
                     }
                     if g.len() < ft.len() {
@@ -246,7 +305,7 @@ pub fn eval_history(h: &History, focus: Focus, profile: &str, full: bool) -> Cas
                     let got = match guard(|| eg.eq(ids_, &b)) {
                         Ok(g) => g,
                         Err(p) => {
-                            if focus == Focus::Complete {
+                            if focus.complete() {
                                 out.fail(Fail::panic("panic-in-eq", &p, "EGraph::eq", cj.clone()));
                             }
                             return out;
@@ -263,9 +322,9 @@ pub fn eval_history(h: &History, focus: Focus, profile: &str, full: bool) -> Cas
                         nontrivial_unequal += 1;
                     }
                     if got != want {
-                        let dir = if got { Focus::Sound } else { Focus::Complete };
+                        let dir_matches = if got { focus.sound() } else { focus.complete() };
                         let what = format!("after step {step} ({}): eq({}, {}) = {got}, oracle says {want} (pool {pool})", h.text(lang)[step], s.text(lang, &pname), t2.text(lang, &pname));
-                        if dir == focus {
+                        if dir_matches {
                             if got {
                                 // defence in depth: re-decide with a larger pool before reporting unsoundness
                                 if !redecide(h, step, s, &t2, pool + 2) {
@@ -292,7 +351,7 @@ pub fn eval_history(h: &History, focus: Focus, profile: &str, full: bool) -> Cas
     }
     let nt = match focus {
         Focus::Sound => changed_unions > 0 && nontrivial_unequal > 0,
-        Focus::Complete => consequence_pairs > 0 && changed_unions > 0,
+        Focus::Complete | Focus::Both => consequence_pairs > 0 && changed_unions > 0,
     };
     if nt {
         out.nontrivial = Some(h.hash(lang));
@@ -367,6 +426,7 @@ pub fn run(args: &Args, rep: &mut Rep, focus: Focus) {
                 "m4" => "m4",
                 "binders" => "binders",
                 "small" => "small",
+                "symred" => "symred",
                 _ => "default",
             }
         };
